@@ -13,8 +13,11 @@ EXPLANATION = (
     "be derived; who-may-write shows no other writer of the state exists; TCB-deleting results are produced only from "
     "the allowed (state, flag) combinations and should_delete_tcb maps exactly those results to deletion; every move "
     "to TIME-WAIT is followed on all paths by arming the 2*MSL timer. This proves the clause 'each endpoint only ever "
-    "moves along transitions of the RFC 9293 state diagram' for all schedules, segments and call orders. Not decided: "
-    "RCV.NXT agreement, data-before-FIN ordering and eventual release (value/history/liveness clauses).")
+    "moves along transitions of the RFC 9293 state diagram' for all schedules, segments and call orders. (T-INORDER, "
+    "shared with C01) a queued segment - a FIN included - reaches process_segment only on the branch where its SEQ is "
+    "not beyond RCV.NXT, the structural half of 'the peer sees the end of the stream only after all data submitted "
+    "before the close'. Not decided: RCV.NXT agreement, byte-level data-before-FIN delivery and eventual release "
+    "(value/history/liveness clauses).")
 ASSUMPTIONS = [
     "value-level side conditions of a transition (e.g. SND.UNA > ISS for SYN-SENT -> ESTABLISHED, is_fin_acked) are not part of the flag-level table",
 ]
@@ -48,6 +51,8 @@ PSR = "elvis_core::protocols::tcp::tcb::ProcessSegmentResult"
 
 def run(ctx):
     prog = ctx.prog()
+    from . import c01
+    c01.check_inorder(ctx)
     ps = prog.method("Tcb", "process_segment")
     cl = prog.method("Tcb", "close")
     new = prog.method("Tcb", "new")
